@@ -152,11 +152,19 @@ def run_e2e(cfg, hist):
         # results are recorded in history order: the bar itself, then the actions
         w.results.append(None)
         for a in steps[k][1]:
+            w.pre_read()  # the same read-only look at the account the synchronous driver takes before every action
             w.apply(a)
 
     async def on_order(ev):
         events.append(ev)
 
+    # a job scheduled for exactly each bar's time looks at the account (jobs run before the events of their time): the
+    # public-API counterpart of the reads the synchronous driver makes between setting the clock and delivering the bar
+    async def reader():
+        await e.get_balances()
+        await e.get_loans()
+    for when in sorted({ev.when for lst in per_pair for ev in lst}):
+        d.schedule(when, reader)
     for pi in range(npairs):
         e.subscribe_to_bar_events(PAIRS[pi], on_bar)
     e.subscribe_to_order_events(on_order)
